@@ -56,7 +56,7 @@ def _run_one(path, name, lineno, timeout, extra=()):
     return out, time.time() - t0
 
 
-_CALL = re.compile(r"when calling (\w+)\((.*)\)\s*(\(which returns.*\))?\s*$")
+_CALL = re.compile(r"when calling (\w+)\((.*?)\)(?:\s*\(which returns.*)?\s*$")
 
 
 def classify(out):
